@@ -219,6 +219,10 @@ func (r *runner) log(e Event) {
 
 func (r *runner) Before(op *vos.Op) vos.Action {
 	cls := fileClass(r.dir, op.Path)
+	if cls == "other" && op.Path2 != "" {
+		// rename / link of some other file onto an entry: a step on that entry
+		cls = fileClass(r.dir, op.Path2)
+	}
 	if cls == "other" {
 		return vos.Action{}
 	}
